@@ -89,6 +89,18 @@ func init() {
 			{Name: "rewrite: stored entry refreshed in place with every field of the advertisement", Edits: []Edit{
 				{File: "internal/routing/forward.go", Old: "\t\t\t\tcloned := route.Clone()\n\t\t\t\tcloned.LastUpdate = time.Now()\n\t\t\t\tt.routes[key][i] = cloned\n", New: "\t\t\t\t_ = i\n\t\t\t\tfresh := route.Clone()\n\t\t\t\tr.Target, r.NextHop, r.Metric, r.Sequence = fresh.Target, fresh.NextHop, fresh.Metric, fresh.Sequence\n\t\t\t\tr.Path, r.EncPath = fresh.Path, fresh.EncPath\n\t\t\t\tr.LastUpdate = time.Now()\n"},
 			}},
+			{Name: "rewrite: path extension in a helper with early return, make(…,1,cap)+append", Edits: []Edit{
+				{File: "internal/flood/flood.go", Old: "\tfwdEncPath := encPath\n\tif encPath != nil && !encPath.Encrypted {\n\t\t// Decode existing path, prepend our ID, re-encode\n\t\texistingPath, _ := protocol.DecodePath(encPath.Data)\n\t\tnewPath := make([]identity.AgentID, len(existingPath)+1)\n\t\tnewPath[0] = f.localID\n\t\tcopy(newPath[1:], existingPath)\n\t\tfwdEncPath = &protocol.EncryptedData{\n\t\t\tEncrypted: false,\n\t\t\tData:      protocol.EncodePath(newPath),\n\t\t}\n\t}\n", New: "\tfwdEncPath := f.extendForwardedPath(encPath)\n"},
+				{File: "internal/flood/flood.go", Old: "// floodWithdrawal sends a route withdrawal to all peers except the source.", New: "func (f *Flooder) extendForwardedPath(encPath *protocol.EncryptedData) *protocol.EncryptedData {\n\tif encPath == nil || encPath.Encrypted {\n\t\treturn encPath\n\t}\n\tupstream, _ := protocol.DecodePath(encPath.Data)\n\tvia := make([]identity.AgentID, 1, 1+len(upstream))\n\tvia[0] = f.localID\n\tvia = append(via, upstream...)\n\treturn &protocol.EncryptedData{Encrypted: false, Data: protocol.EncodePath(via)}\n}\n\n// floodWithdrawal sends a route withdrawal to all peers except the source."},
+			}},
+			{Name: "path-extension helper also returns a present plaintext path unchanged", ExpectRule: "C12.R2", ExpectKey: "floodAdvertisementEncrypted", Edits: []Edit{
+				{File: "internal/flood/flood.go", Old: "\tfwdEncPath := encPath\n\tif encPath != nil && !encPath.Encrypted {\n\t\t// Decode existing path, prepend our ID, re-encode\n\t\texistingPath, _ := protocol.DecodePath(encPath.Data)\n\t\tnewPath := make([]identity.AgentID, len(existingPath)+1)\n\t\tnewPath[0] = f.localID\n\t\tcopy(newPath[1:], existingPath)\n\t\tfwdEncPath = &protocol.EncryptedData{\n\t\t\tEncrypted: false,\n\t\t\tData:      protocol.EncodePath(newPath),\n\t\t}\n\t}\n", New: "\tfwdEncPath := f.extendForwardedPath(encPath, len(seenBy))\n"},
+				{File: "internal/flood/flood.go", Old: "// floodWithdrawal sends a route withdrawal to all peers except the source.", New: "func (f *Flooder) extendForwardedPath(encPath *protocol.EncryptedData, hops int) *protocol.EncryptedData {\n\tif encPath == nil || encPath.Encrypted || hops > 64 {\n\t\treturn encPath\n\t}\n\tupstream, _ := protocol.DecodePath(encPath.Data)\n\tvia := append([]identity.AgentID{f.localID}, upstream...)\n\treturn &protocol.EncryptedData{Encrypted: false, Data: protocol.EncodePath(via)}\n}\n\n// floodWithdrawal sends a route withdrawal to all peers except the source."},
+			}},
+			{Name: "rewrite: received path decoded by a helper with early returns", Edits: []Edit{
+				{File: "internal/flood/flood.go", Old: "\tvar path []identity.AgentID\n\tif encPath != nil {\n\t\tif encPath.Encrypted {\n\t\t\t// Legacy: try to decrypt if we have the private key\n\t\t\t// (for backwards compatibility with old encrypted paths)\n\t\t\tif f.sealedBox != nil && f.sealedBox.CanDecrypt() {\n\t\t\t\tdecrypted, err := f.sealedBox.Open(encPath.Data)\n\t\t\t\tif err == nil {\n\t\t\t\t\tpath, _ = protocol.DecodePath(decrypted)\n\t\t\t\t}\n\t\t\t}\n\t\t\t// If we can't decrypt, path remains nil (routing will fail)\n\t\t} else {\n\t\t\t// Plaintext - decode directly (normal case)\n\t\t\tpath, _ = protocol.DecodePath(encPath.Data)\n\t\t}\n\t}\n", New: "\tpath := f.decodeAdvertisedPath(encPath)\n"},
+				{File: "internal/flood/flood.go", Old: "// floodWithdrawal sends a route withdrawal to all peers except the source.", New: "func (f *Flooder) decodeAdvertisedPath(encPath *protocol.EncryptedData) []identity.AgentID {\n\tif encPath == nil {\n\t\treturn nil\n\t}\n\tif !encPath.Encrypted {\n\t\tdecoded, _ := protocol.DecodePath(encPath.Data)\n\t\treturn decoded\n\t}\n\tif f.sealedBox == nil || !f.sealedBox.CanDecrypt() {\n\t\treturn nil\n\t}\n\tplain, err := f.sealedBox.Open(encPath.Data)\n\tif err != nil {\n\t\treturn nil\n\t}\n\tdecoded, _ := protocol.DecodePath(plain)\n\treturn decoded\n}\n\n// floodWithdrawal sends a route withdrawal to all peers except the source."},
+			}},
 			{Name: "rewrite: if-chain dispatch entry, swapped comparison", Edits: []Edit{
 				{File: "internal/agent/agent.go", Old: "func (a *Agent) processFrame(peerID identity.AgentID, frame *protocol.Frame) {\n\tswitch frame.Type {\n\tcase protocol.FrameStreamOpen:\n\t\ta.handleStreamOpen(peerID, frame)\n", New: "func (a *Agent) processFrame(peerID identity.AgentID, frame *protocol.Frame) {\n\tif protocol.FrameStreamOpen == frame.Type {\n\t\ta.handleStreamOpen(peerID, frame)\n\t\treturn\n\t}\n\tswitch frame.Type {\n"},
 			}},
@@ -112,6 +124,70 @@ type c12Alt struct {
 	v     ssa.Value
 	conds []kit.Guard
 	chain []ssa.CallInstruction
+	site  *c12Site // where this alternative is chosen (innermost phi edge or helper return); nil = unconditional
+}
+
+// c12Site is a phi edge (from -> to) or a return of a helper.
+type c12Site struct {
+	fn       *ssa.Function
+	from, to *ssa.BasicBlock
+	ret      *ssa.Return
+}
+
+// c12SiteReachable: can the site be reached when every received *EncryptedData (a parameter of
+// that type) is present (non-nil) and not encrypted? Conditions on anything else are left open.
+func c12SiteReachable(cx *c11Flood, st *c12Site) bool {
+	if st == nil {
+		return true
+	}
+	fn := st.fn
+	if len(fn.Blocks) == 0 {
+		return true
+	}
+	seenB := map[*ssa.BasicBlock]bool{}
+	edge := map[[2]*ssa.BasicBlock]bool{}
+	work := []*ssa.BasicBlock{fn.Blocks[0]}
+	for len(work) > 0 {
+		b := work[len(work)-1]
+		work = work[:len(work)-1]
+		if seenB[b] {
+			continue
+		}
+		seenB[b] = true
+		follow := func(sc *ssa.BasicBlock) {
+			edge[[2]*ssa.BasicBlock{b, sc}] = true
+			work = append(work, sc)
+		}
+		if n := len(b.Instrs); n > 0 {
+			if ifi, ok := b.Instrs[n-1].(*ssa.If); ok {
+				c, pol := c11Norm(ifi.Cond, true)
+				val, known := false, false
+				if bo, ok := c.(*ssa.BinOp); ok && (bo.Op == token.EQL || bo.Op == token.NEQ) {
+					if (kit.IsNilConst(bo.Y) && c12IsReceivedEnc(cx, bo.X)) || (kit.IsNilConst(bo.X) && c12IsReceivedEnc(cx, bo.Y)) {
+						val, known = bo.Op == token.NEQ, true
+					}
+				}
+				if f, base := kit.LoadedField(c); f != nil && f.Name() == "Encrypted" && c12IsReceivedEnc(cx, base) {
+					val, known = false, true
+				}
+				if known {
+					if val == pol {
+						follow(b.Succs[0])
+					} else {
+						follow(b.Succs[1])
+					}
+					continue
+				}
+			}
+		}
+		for _, sc := range b.Succs {
+			follow(sc)
+		}
+	}
+	if st.ret != nil {
+		return seenB[st.ret.Block()]
+	}
+	return edge[[2]*ssa.BasicBlock{st.from, st.to}]
 }
 
 // c12EdgeConds returns the normalised conditions that hold when control flows pred -> succ.
@@ -134,14 +210,14 @@ func c12EdgeConds(pred, succ *ssa.BasicBlock) []kit.Guard {
 func c12Alts(v ssa.Value, chain []ssa.CallInstruction) []c12Alt {
 	var out []c12Alt
 	seen := map[ssa.Value]bool{}
-	var rec func(v ssa.Value, conds []kit.Guard, chain []ssa.CallInstruction, depth int)
-	rec = func(v ssa.Value, conds []kit.Guard, chain []ssa.CallInstruction, depth int) {
+	var rec func(v ssa.Value, conds []kit.Guard, chain []ssa.CallInstruction, depth int, site *c12Site)
+	rec = func(v ssa.Value, conds []kit.Guard, chain []ssa.CallInstruction, depth int, site *c12Site) {
 		if depth > 6 {
 			return
 		}
 		switch x := v.(type) {
 		case *ssa.ChangeType:
-			rec(x.X, conds, chain, depth)
+			rec(x.X, conds, chain, depth, site)
 			return
 		case *ssa.Phi:
 			if seen[v] {
@@ -150,7 +226,7 @@ func c12Alts(v ssa.Value, chain []ssa.CallInstruction) []c12Alt {
 			seen[v] = true
 			for i, e := range x.Edges {
 				ec := append(append([]kit.Guard{}, conds...), c12EdgeConds(x.Block().Preds[i], x.Block())...)
-				rec(e, ec, chain, depth+1)
+				rec(e, ec, chain, depth+1, &c12Site{fn: x.Parent(), from: x.Block().Preds[i], to: x.Block()})
 			}
 			return
 		case *ssa.Call:
@@ -161,14 +237,14 @@ func c12Alts(v ssa.Value, chain []ssa.CallInstruction) []c12Alt {
 						continue
 					}
 					rc := append(append([]kit.Guard{}, conds...), c11Guards(ret)...)
-					rec(kit.ReturnResult(ret, 0), rc, append(append([]ssa.CallInstruction{}, chain...), x), depth+1)
+					rec(kit.ReturnResult(ret, 0), rc, append(append([]ssa.CallInstruction{}, chain...), x), depth+1, &c12Site{fn: cal.Static, ret: ret})
 				}
 				return
 			}
 		}
-		out = append(out, c12Alt{v, conds, chain})
+		out = append(out, c12Alt{v, conds, chain, site})
 	}
-	rec(v, nil, chain, 0)
+	rec(v, nil, chain, 0, nil)
 	return out
 }
 
@@ -229,12 +305,54 @@ func c12OneLocal(cx *c11Flood, v ssa.Value) bool {
 	return n == 1 && good == 1
 }
 
+// c12OneLocalMake: v is make([]AgentID, 1, …) whose only element is set to the local id and which is
+// used by nothing else than the given append (as its first argument) and len/cap.
+func c12OneLocalMake(cx *c11Flood, v ssa.Value, user *ssa.Call) bool {
+	m, ok := v.(*ssa.MakeSlice)
+	if !ok || m.Referrers() == nil {
+		return false
+	}
+	if k, isc := kit.ConstInt(m.Len); !isc || k != 1 {
+		return false
+	}
+	head := 0
+	for _, ref := range *m.Referrers() {
+		switch y := ref.(type) {
+		case *ssa.IndexAddr:
+			idx, isc := kit.ConstInt(y.Index)
+			if y.Referrers() == nil {
+				continue
+			}
+			for _, r2 := range *y.Referrers() {
+				if st, ok := r2.(*ssa.Store); ok && st.Addr == ssa.Value(y) {
+					if isc && idx == 0 && c11LoadsField(st.Val, cx.localID) {
+						head++
+					} else {
+						return false
+					}
+				}
+			}
+		case *ssa.Call:
+			if y == user && y.Call.Args[0] == v {
+				continue
+			}
+			if b := kit.CalleeOf(y).Built; b == "len" || b == "cap" {
+				continue
+			}
+			return false
+		default:
+			return false
+		}
+	}
+	return head == 1
+}
+
 // c12Prepend recognises "local id followed by tail": append([]AgentID{local}, tail...), or
 // make + p[0]=local + copy(p[1:], tail), or the bare []AgentID{local} (tail == nil, empty=true).
 func c12Prepend(cx *c11Flood, v ssa.Value) (tail ssa.Value, empty bool, ok bool) {
 	switch x := v.(type) {
 	case *ssa.Call:
-		if kit.CalleeOf(x).Built == "append" && len(x.Call.Args) == 2 && c12OneLocal(cx, x.Call.Args[0]) {
+		if kit.CalleeOf(x).Built == "append" && len(x.Call.Args) == 2 && (c12OneLocal(cx, x.Call.Args[0]) || c12OneLocalMake(cx, x.Call.Args[0], x)) {
 			return x.Call.Args[1], false, true
 		}
 	case *ssa.Slice:
@@ -830,7 +948,13 @@ func runC12(p *kit.Program, r *kit.Report) {
 			continue
 		}
 		var bad []string
-		for _, alt := range c11Resolve(p, pv) {
+		var leaves []ssa.Value
+		for _, res := range c11Resolve(p, pv) {
+			for _, a := range c12Alts(c12Deref(res), nil) { // phis and path-decoding helpers of package flood
+				leaves = append(leaves, a.v)
+			}
+		}
+		for _, alt := range leaves {
 			alt = c12Deref(alt)
 			if c, ok := alt.(*ssa.Const); ok && c.Value == nil {
 				continue // path absent / undecryptable
@@ -987,7 +1111,7 @@ func runC12(p *kit.Program, r *kit.Report) {
 			}
 			var deps []string
 			for _, c := range g4SkipConds(cx, h, d, sk, false) {
-				deps = append(deps, g4PerCopyDeps(cx, h, d, c)...)
+				deps = append(deps, g4PerCopyDeps(cx, h, d, c.v)...)
 			}
 			deps = c12Uniq(deps)
 			ok := len(deps) == 0 || g4UndoesMark(cx, sk)
@@ -1115,9 +1239,16 @@ func c12ReplayPath(cx *c11Flood, l *c11Lit) []string {
 				probs = append(probs, "a replayed path is not the local id prepended to a stored path ("+c12Short(a.v)+")")
 			case empty:
 			default:
-				f, _ := kit.LoadedField(tail)
-				if f == nil || f.Name() != "Path" {
-					probs = append(probs, "the tail of a replayed path is not the Path field of a stored route")
+				// the tail may be chosen among several stored routes (switch / if-chain): every
+				// choice must be the Path of a stored route, or nothing
+				for _, leaf := range kit.PhiLeaves(tail) {
+					leaf = c12Deref(leaf)
+					if c, isC := leaf.(*ssa.Const); isC && c.Value == nil {
+						continue
+					}
+					if f, _ := kit.LoadedField(leaf); f == nil || f.Name() != "Path" {
+						probs = append(probs, "the tail of a replayed path is not the Path field of a stored route")
+					}
 				}
 			}
 		}
@@ -1162,19 +1293,9 @@ func c12ForwardedPath(cx *c11Flood, l *c11Lit) []string {
 	for _, a := range c12Alts(ep, nil) {
 		// the received *EncryptedData itself, unchanged
 		if c12IsReceivedEnc(cx, a.v) {
-			okRaw := false
-			for _, g := range a.conds {
-				if b, ok := g.Cond.(*ssa.BinOp); ok && (b.Op == token.EQL || b.Op == token.NEQ) {
-					if (kit.IsNilConst(b.Y) && c12IsReceivedEnc(cx, b.X)) || (kit.IsNilConst(b.X) && c12IsReceivedEnc(cx, b.Y)) {
-						if (b.Op == token.EQL) == g.Polarity {
-							okRaw = true // path absent
-						}
-					}
-				}
-				if f, base := kit.LoadedField(g.Cond); f != nil && f.Name() == "Encrypted" && g.Polarity && c12IsReceivedEnc(cx, base) {
-					okRaw = true // legacy encrypted path cannot be extended
-				}
-			}
+			// unchanged forwarding is right only where the path is absent or encrypted: the place where
+			// this alternative is chosen must be unreachable for a present plaintext path
+			okRaw := !c12SiteReachable(cx, a.site)
 			if !okRaw {
 				probs = append(probs, "the received path is forwarded unchanged (local id not prepended) on a branch where it is present and not encrypted")
 			}
